@@ -5,7 +5,7 @@ use crate::json::{hex_short, J};
 use crate::monitor;
 use crate::prng::fnv;
 use crate::refs::lz::{self, Class, Tok};
-use mila::{LZ10CompressionFormat, LZ13CompressionFormat};
+use mila::{CompressionFormat, LZ10CompressionFormat, LZ13CompressionFormat};
 
 #[derive(Clone, Copy, PartialEq, Eq, Debug)]
 pub enum Fmt {
@@ -17,9 +17,14 @@ pub const ALLOC_CAP: usize = 1 << 31;
 
 pub fn compress(c: &mut Case, fmt: Fmt, input: &[u8]) -> Option<Result<Vec<u8>, String>> {
     monitor::alloc_watch_begin(ALLOC_CAP);
-    let r = c.lib(if fmt == Fmt::Lz10 { "LZ10 compress" } else { "LZ13 compress" }, || match fmt {
-        Fmt::Lz10 => LZ10CompressionFormat {}.compress(input).map_err(|e| e.to_string()),
-        Fmt::Lz13 => LZ13CompressionFormat {}.compress(input).map_err(|e| e.to_string()),
+    // both public entry points: the format struct, and the CompressionFormat enum that the
+    // layered filesystem dispatches through (chosen by the parity of the input length)
+    let via_enum = input.len() % 2 == 1;
+    let r = c.lib(if fmt == Fmt::Lz10 { "LZ10 compress" } else { "LZ13 compress" }, || match (fmt, via_enum) {
+        (Fmt::Lz10, false) => LZ10CompressionFormat {}.compress(input).map_err(|e| e.to_string()),
+        (Fmt::Lz13, false) => LZ13CompressionFormat {}.compress(input).map_err(|e| e.to_string()),
+        (Fmt::Lz10, true) => CompressionFormat::LZ10(LZ10CompressionFormat {}).compress(input).map_err(|e| e.to_string()),
+        (Fmt::Lz13, true) => CompressionFormat::LZ13(LZ13CompressionFormat {}).compress(input).map_err(|e| e.to_string()),
     });
     monitor::alloc_watch_end();
     r
@@ -227,6 +232,26 @@ pub fn run_generic(cx: &mut Ctx, fmt: Fmt) {
         }
     }
     if !miri && cx.a.scale >= 0.49 {
+        // calls outside the domain (16 MiB and more; for LZ13 also the empty input) must not leave
+        // anything behind that changes the next ordinary call
+        cx.case("ordinary_calls_after_out_of_domain_calls", |c| {
+            c.sit("ordinary_calls_after_out_of_domain_calls");
+            let big = vec![0u8; 1 << 24];
+            let _ = compress(c, fmt, &big);
+            let mut odd = big;
+            odd.push(1);
+            let _ = compress(c, fmt, &odd);
+            drop(odd);
+            for probe in [&b"abcdefgh"[..], &b"abcdefghijklmnop"[..], &b"abcabcabcabcabcabcabcx"[..], &b"z"[..]] {
+                check_compress(c, fmt, probe, "after an oversize call");
+            }
+            if fmt == Fmt::Lz13 {
+                let _ = compress(c, fmt, &[]);
+                for probe in [&b"abcdefgh"[..], &b"0123456789abcdef"[..], &b"q"[..]] {
+                    check_compress(c, fmt, probe, "after the empty input");
+                }
+            }
+        });
         // the largest input the 24-bit length field can describe
         cx.case("largest_input_2^24-1", |c| {
             c.sit("largest_input");
@@ -267,7 +292,7 @@ pub fn run_generic(cx: &mut Ctx, fmt: Fmt) {
     }
 }
 
-pub const REQUIRED: &[&str] = &["small_alphabet_exhaustive", "boundary_lengths", "ref_disp_4096", "ref_overlapping", "ref_len_18", "ends_inside_flag_group", "window_edge_period", "largest_input", "around_64KiB_multiples"];
+pub const REQUIRED: &[&str] = &["small_alphabet_exhaustive", "boundary_lengths", "ref_disp_4096", "ref_overlapping", "ref_len_18", "ends_inside_flag_group", "window_edge_period", "largest_input", "around_64KiB_multiples", "ordinary_calls_after_out_of_domain_calls"];
 
 pub fn run(cx: &mut Ctx) {
     if !cfg!(miri) {
